@@ -44,6 +44,9 @@ KINDS = {
 }
 
 # messages: name -> list of (field name, kind, tag); kinds beyond KINDS are handled specially
+MESSAGES2 = [
+ ("Second", [("k", "byte", 1), ("pt", "struct:Point", 2), ("n", "int32", 300)]),
+]
 MESSAGES = [
  ("Fixed",  [("b", "bool", 1), ("by", "byte", 255), ("f32", "float32", 256), ("f64", "float64", 65535)]),
  ("I16",    [("a", "int16", 1), ("u", "uint16", 256)]),
@@ -85,6 +88,12 @@ for name, fields in MESSAGES:
     lines = [f"    {f} {schema_type(k)} {t};" for f, k, t in fields]
     spec.append("message %s {\n%s\n}\n" % (name, "\n".join(lines)))
 open(f"{out}/schema/zzc05/a.spec", "w").write("\n".join(spec))
+# a second file of the same package (multi-file package; its name shares the first dot-segment with a.spec)
+spec2 = []
+for name, fields in MESSAGES2:
+    lines = [f"    {f} {schema_type(k)} {t};" for f, k, t in fields]
+    spec2.append("message %s {\n%s\n}\n" % (name, "\n".join(lines)))
+open(f"{out}/schema/zzc05/a.more.spec", "w").write("\n".join(spec2))
 open(f"{out}/schema/zzc05b/b.spec", "w").write(
     f'options (\n    go_package="{PKGB}"\n)\n\nenum Shade {{\n    Zero = 0;\n    Dark = 9;\n}}\n\nmessage Ext {{\n    k byte 2;\n}}\n')
 
@@ -192,7 +201,7 @@ def harness(name, fields):
     entries.append({"func": PKG + "." + fn, "params": {"quick": {}}, "reach": ["done"], "unwind": 200,
                     "note": "schema message %s { %s }" % (name, "; ".join(f"{f} {schema_type(k)} {t}" for f, k, t in fields))})
 
-for name, fields in MESSAGES:
+for name, fields in MESSAGES + MESSAGES2:
     harness(name, fields)
 
 # struct and enum codecs
